@@ -47,7 +47,7 @@ func VerifLexAll(n int) {
 	// where the lexer gave up: inside a line comment that starts the input (no newline
 	// between the leading '#' and the last rune read), or anywhere else
 	where := ""
-	if !l.reader.VerifAtEOF() && n > 0 && runes[0] == '#' {
+	if !l.reader.VerifAtEOF() && n > 1 && runes[0] == '#' && runes[1] != '{' { // `#{` is a token, not a comment
 		inComment := true
 		for i := 1; i < l.reader.VerifPos()-1 && i < n; i++ {
 			if runes[i] == '\n' {
